@@ -47,6 +47,7 @@ class archive(dict):
             return self.pop(keys, *value)
         if len(value):
             return [self.pop(k, *value) for k in keys]
+        keys = list(keys) # walked twice below: an iterator would be used up by the first pass
         memo = self.fromkeys(self.keys())
         [memo.pop(k) for k in keys]
         return [self.pop(k) for k in keys]
